@@ -1,6 +1,7 @@
 import CookModel.Lemmas.Text
 import CookModel.Analysis.Collector
 import CookModel.Lemmas.ParserBlocks
+import CookModel.Lemmas.Blocks
 /-
   C03  No input makes a public entry point panic, overflow or hang.
 
@@ -303,5 +304,134 @@ example : let b : List Tok := [⟨.at, ['@'], 0⟩, ⟨.word, ['a'], 1⟩, ⟨.o
   · intro t ht hk
     simp only [b, List.getLast?_cons_cons, List.getLast?_singleton, Option.some.injEq] at ht
     subst ht; cases hk
+/-! ### the fuel of the block splitter never runs out
+
+  The three loops of `next_block` are modelled with fuel.  `C03_*_fuel_suffices`: any fuel at least
+  the length of the remaining stream gives the same result as the fuel the model uses (so the result
+  is the fuel-free limit); `C03_splitter_terminates`: with the fuel the model uses, each loop
+  satisfies its fuel-free recursion equation, i.e. a loop only ever stops for the reason the Rust
+  loop stops (end of stream / non-empty line / marker / empty line), never because fuel ran out. -/
+
+theorem C03_skip_fuel_suffices (ts : List Tok) (f : Nat) (h : ts.length ≤ f) :
+    skipEmptyLines f ts = skipEmptyLines (ts.length + 1) ts :=
+  blocks_skip_fuel f (ts.length + 1) ts h (by omega)
+
+theorem C03_more_fuel_suffices (ts : List Tok) (f : Nat) (h : ts.length ≤ f) :
+    moreLines f ts = moreLines (ts.length + 1) ts :=
+  blocks_more_fuel f (ts.length + 1) ts h (by omega)
+
+/-- the list of blocks does not depend on the fuel once it is at least the stream length -/
+theorem C03_blocks_fuel_suffices (ts : List Tok) (f : Nat) (h : ts.length ≤ f) :
+    allBlocks f ts = allBlocks (ts.length + 1) ts :=
+  blocks_all_fuel f (ts.length + 1) ts h (by omega)
+
+/-- The splitter terminates for the right reason.  With the fuel used by `nextBlock`/`pullEvents`:
+    the block list is `next_block` iterated until it returns `None`; `None` is returned exactly when
+    only blank tokens are left (the stream is exhausted of blocks); every step strictly shortens the
+    stream; and the two inner loops obey their fuel-free recursion. -/
+theorem C03_splitter_terminates (ts : List Tok) :
+    (allBlocks (ts.length + 1) ts = match nextBlock ts with
+      | none => []
+      | some (b, rest) => b :: allBlocks (rest.length + 1) rest) ∧
+    (nextBlock ts = none ↔ ∀ t ∈ ts, isEmptyTok t.kind = true) ∧
+    (∀ b rest, nextBlock ts = some (b, rest) → rest.length < ts.length) ∧
+    (skipEmptyLines (ts.length + 1) ts = match pullLine ts with
+      | none => none
+      | some (li, rest) => if li.isEmpty then skipEmptyLines (rest.length + 1) rest else some (li, rest)) ∧
+    (moreLines (ts.length + 1) ts =
+      if isSingleLineMarker ts.head? then ([], ts) else
+      match pullLine ts with
+      | none => ([], ts)
+      | some (li, rest) =>
+        if li.isEmpty then ([], rest) else
+        (li.toks ++ (moreLines (rest.length + 1) rest).1, (moreLines (rest.length + 1) rest).2)) :=
+  ⟨blocks_all_unfold ts, blocks_next_none ts,
+   fun b rest h => (blocks_next_some ts b rest h).choose_spec.choose_spec.2.2.2.2,
+   blocks_skip_unfold ts, blocks_more_unfold ts⟩
+
+/-- the metadata-only scanner (`next_metadata_block` iterated): its fuel never runs out either, and
+    with the fuel `pullMetaEvents` uses it obeys the fuel-free recursion (seek the next `>>` at a
+    line start, take the line, continue after its newline) -/
+theorem C03_meta_scanner_terminates (ts : List Tok) (last : TK) :
+    (∀ f, ts.length ≤ f → metaBlocks f last ts = metaBlocks (ts.length + 1) last ts) ∧
+    (metaBlocks (ts.length + 1) last ts = match seekMeta last ts with
+      | none => []
+      | some ts' => lineBody ts' :: metaBlocks ((afterLine ts').length + 1) .newline (afterLine ts')) := by
+  refine ⟨fun f h => blocks_meta_fuel f (ts.length + 1) last ts h (by omega), ?_⟩
+  rw [blocks_meta_succ]
+  cases hs : seekMeta last ts with
+  | none => rfl
+  | some ts' =>
+    obtain ⟨t, r, e, _, hl⟩ := blocks_seek_some last ts ts' hs
+    have := blocks_afterLine_length t r
+    rw [← e] at this
+    simp only
+    rw [blocks_meta_fuel ts.length ((afterLine ts').length + 1) .newline _ (by omega) (by omega)]
+
+/-- every block handed to `BlockParser::new` by the metadata-only scanner is non-empty -/
+theorem C03_meta_blocks_nonempty (f : Nat) (last : TK) (ts : List Tok) :
+    ∀ b ∈ metaBlocks f last ts, b ≠ [] := by
+  induction f generalizing last ts with
+  | zero => intro b hb; simp [metaBlocks] at hb
+  | succ n ih =>
+    intro b hb
+    rw [blocks_meta_succ] at hb
+    cases hs : seekMeta last ts with
+    | none => rw [hs] at hb; simp at hb
+    | some ts' =>
+      rw [hs] at hb
+      obtain ⟨t, r, e, hk, _⟩ := blocks_seek_some last ts ts' hs
+      simp only [List.mem_cons] at hb
+      rcases hb with rfl | hb
+      · rw [e]; simp [lineBody, hk]
+      · exact ih _ _ b hb
+
+/-- the emptiness test on the trimmed block in `next_block` (`return None`) is dead code: a block
+    that starts with a non-empty line is never empty after trimming -/
+theorem C03_trimmed_block_never_empty (ts : List Tok) :
+    nextBlock ts = match skipEmptyLines (ts.length + 1) ts with
+      | none => none
+      | some (li, rest) =>
+        some (trimTrailingNewlines (li.toks ++ (blockMore li rest).1), (blockMore li rest).2) :=
+  blocks_next_eq ts
+
+/-- Every block handed to `BlockParser::new` is a non-empty contiguous slice of the token stream.
+    Hence, if the stream's spans are adjacent from `off` (they are: `C04_tokens_contiguous`), the
+    block's spans are adjacent starting at its first token (`debug_assert_adjacent!`), and all its
+    spans lie inside `[off, off + len]` (`tokens out of input bounds`). Holds for any fuel. -/
+theorem C03_blocks_are_infixes (off : Nat) (ts : List Tok) (h : Chain off ts) (f : Nat) :
+    ∀ b ∈ allBlocks f ts,
+      (∃ pre post, ts = pre ++ b ++ post) ∧
+      (∃ t r, b = t :: r ∧ Chain t.start b) ∧
+      (∀ u ∈ b, off ≤ u.start ∧ u.stop ≤ off + utf8Len (ts.flatMap (·.text))) := by
+  intro b hb
+  obtain ⟨hne, pre, post, e⟩ := blocks_all_infix f ts b hb
+  refine ⟨⟨pre, post, by rw [e]; simp⟩, ?_, ?_⟩
+  · cases b with
+    | nil => exact absurd rfl hne
+    | cons t r =>
+      refine ⟨t, r, rfl, ?_⟩
+      rw [e] at h
+      exact blocks_chain_head _ t r (blocks_chain_infix off pre (t :: r) post h)
+  · intro u hu
+    exact blocks_chain_bounds off ts h u (by rw [e]; simp [hu])
+
+/-! non-vacuity of the adjacency hypothesis: a two-line stream with adjacent spans -/
+example : Chain 3 [⟨.word, ['a'], 3⟩, ⟨.newline, ['\n'], 4⟩, ⟨.word, ['é'], 5⟩] := ⟨rfl, rfl, rfl, trivial⟩
+
+/-- instance for the stream `PullParser` splits: the first token of every block starts strictly
+    before the end of the input and the last one ends inside it (the two `debug_assert!`s of
+    `BlockParser::new`, with `off` the front-matter offset) -/
+theorem C03_blocks_in_bounds (cs : CharSpec) (off : Nat) (s : List Char) :
+    ∀ b ∈ allBlocks ((lexFrom cs off s).length + 1) (lexFrom cs off s),
+      ∀ u ∈ b, u.start < off + utf8Len s ∧ u.stop ≤ off + utf8Len s := by
+  intro b hb u hu
+  have h := (C03_blocks_are_infixes off _ (lexFrom_chain cs off s) _ b hb).2.2 u hu
+  rw [lexFrom_tile] at h
+  obtain ⟨_, pre, post, e⟩ := blocks_all_infix _ _ b hb
+  have hmem : u ∈ lexFrom cs off s := by rw [e]; simp [hu]
+  have hpos := utf8Len_pos (lexFrom_nonempty cs off s u hmem)
+  simp only [Tok.stop] at h ⊢
+  omega
 
 end Cook
